@@ -367,6 +367,14 @@ static int copy_set(rset_t *dst, const rset_t *src)
 	dst->data = sqfs_copy(src->data);
 	dst->xr = src->xr ? sqfs_copy(src->xr) : NULL;
 	dst->mr = sqfs_copy(src->mr);
+	dst->dmr = sqfs_copy(src->dmr);
+	/* the low-level directory cursor is a plain structure: a by-value copy continues where the original stands */
+	dst->cur = src->cur;
+	dst->cur_ref = src->cur_ref;
+	dst->cur_used = src->cur_used;
+	dst->cur_valid = src->cur_valid;
+	if (!dst->dmr)
+		return -1;
 	if (!dst->file || !dst->cmp || !dst->idtbl || !dst->dr || !dst->data || !dst->mr || (src->xr && !dst->xr))
 		return -1;
 	dst->ok = 1;
